@@ -115,6 +115,8 @@ func (a *activeSide) sentinel(n int) string {
 type gateReq struct {
 	path    string
 	release chan struct{}
+	outcome int // fault outcome (fault_test.go), set by the harness before it closes release
+	pos     int
 }
 
 type gate struct {
@@ -150,6 +152,12 @@ func (g *gate) ServeHTTP(w http.ResponseWriter, r *http.Request) {
 	case <-r.Context().Done():
 		return
 	case <-g.closed:
+		return
+	}
+	if ev.outcome == foDelay {
+		time.Sleep(2 * time.Millisecond)
+	} else if ev.outcome != foOK {
+		serveWithOutcome(w, r, g.inner, ev.outcome, ev.pos)
 		return
 	}
 	if r.URL.Path == "/ha/sessions/stream" {
@@ -198,9 +206,10 @@ type linkCase struct {
 	NoHeldDelete bool // steer around the listed stale-entry finding: no delete of a session the standby holds while it is away
 }
 type linkEpisode struct {
-	Away      []achg // while the standby is not connected (before its first request of the episode is served)
-	Between   []achg // between the standby's first and second request of the link establishment
-	Connected []achg // after the link is up
+	Away      []achg   // while the standby is not connected (before its first request of the episode is served)
+	Between   []achg   // between the standby's first and second request of the link establishment
+	Connected []achg   // after the link is up
+	Faults    faultSet // what the standby's requests of this (re)connection run into before they are served
 }
 
 func startStandby(endpoint string, store ha.SessionStore) *ha.HASyncer {
@@ -248,11 +257,14 @@ func genLinkCase() *rapid.Generator[linkCase] {
 			if avoidGap {
 				e.Between = nil
 			}
+			e.Faults = genFaultSet().Draw(t, "faults")
 			c.Episodes = append(c.Episodes, e)
 		}
 		return c
 	})
 }
+
+const sigAfterFailedSnapshot = "C13/link/quiescent-divergence/connected-after-failed-snapshot"
 
 func runLinkCase(t fataler, c linkCase) {
 	noHeldDelete := c.NoHeldDelete
@@ -296,68 +308,144 @@ func runLinkCase(t fataler, c linkCase) {
 		}
 		return lossy
 	}
+	// nextEvent: the standby's next request parked at the gate, or the standby reporting that the link is up.
+	// (Between two episodes the harness waits until the standby has noticed the cut, so a "connected" seen
+	// here was set by the connection attempt under way.)
+	// "Connected" counts only while the stream request the standby sits on was served genuinely by the harness:
+	// a standby that got a 200 with an HTML page for its stream reports connected for the instant it needs to
+	// read that page to its end, then starts over.
+	streamLive := false
+	nextEvent := func() (ev *gateReq, up, ok bool) {
+		deadline := time.Now().Add(waitTimeout)
+		for {
+			select {
+			case ev := <-g.arrivals:
+				return ev, false, true
+			case <-time.After(200 * time.Microsecond):
+			}
+			if streamLive && sb.Stats().Connected {
+				return nil, true, true
+			}
+			if time.Now().After(deadline) {
+				return nil, false, false
+			}
+		}
+	}
 	sentinels := 0
 
 	for ei, ep := range c.Episodes {
 		if dead {
 			break
 		}
-		r1 := g.nextRequest()
-		if r1 == nil {
-			inconclusive("standby issued no request within %v", waitTimeout)
-			break
-		}
-		// the standby is parked before its first request is served: it is away
-		awayLossy := do("away", ep.Away)
-		mark := time.Now()
-		snapshot := act.tbl.clone()
-		hist = append(hist, "serve:"+r1.path)
-		close(r1.release)
-		r2 := g.nextRequest()
-		if r2 == nil {
-			inconclusive("standby issued no second request within %v", waitTimeout)
-			break
-		}
-		getFirst := r1.path == "/ha/sessions" && r2.path == "/ha/sessions/stream"
-		streamFirst := r1.path == "/ha/sessions/stream" && r2.path == "/ha/sessions"
-		if !getFirst && !streamFirst {
-			// e.g. a failed request repeated: not a shape this harness drives; treat as inconclusive, never as a violation
-			inconclusive("unexpected request pair %s, %s (standby last error: %q)", r1.path, r2.path, sb.Stats().LastError)
-			break
-		}
-		if getFirst {
-			cls["order:get-then-stream"] = true
-			// the full sync has completed and the standby is parked before the stream: clause 1, on the real loop
-			if awayLossy {
-				nt = true
-			}
-			if d := diffTable(sbStore.GetAllSessions(), snapshot); !d.empty() {
-				sig := sigLoopFullDiff
-				if len(d.extra) > 0 && len(d.missing)+len(d.differ)+len(d.dup) == 0 {
-					sig = sigLoopFullStale
-				}
-				fail(sig, "episode %d: immediately after the completed full sync the standby table differs from the snapshot: %v", ei, d)
+		faults := faultSet{Stream: append([]int(nil), ep.Faults.Stream...), Snap: append([]int(nil), ep.Faults.Snap...), Pos: ep.Faults.Pos}
+		var (
+			awayDone, betweenDone   bool
+			awayLossy, betweenLossy bool
+			okInAttempt             string // path of the request served genuinely in the connection attempt under way ("" = none yet)
+			snapAt                  table  // the active's table when the last genuine snapshot was served
+			lastSnapFault           bool   // the most recent snapshot request was answered with a fault
+			snapFaults, strFaults   int
+		)
+		for !dead {
+			ev, up, ok := nextEvent()
+			if !ok {
+				inconclusive("standby neither issued a request nor reported connected within %v (last error: %q)", waitTimeout, sb.Stats().LastError)
 				break
 			}
-		} else {
-			cls["order:stream-then-get"] = true
+			if up {
+				break
+			}
+			if !awayDone {
+				// the standby is parked before its first request is served: it is away
+				awayDone = true
+				awayLossy = do("away", ep.Away)
+			} else if okInAttempt != "" && okInAttempt != ev.path && !betweenDone {
+				betweenDone = true
+				betweenLossy = do("between", ep.Between)
+				if len(ep.Between) > 0 {
+					cls["change-between-requests"] = true
+				}
+			}
+			class := classOf(ev.path)
+			outcome := foOK
+			switch class {
+			case clsStream:
+				streamLive = false // a new stream request: whatever stream there was has been given up
+				if len(faults.Stream) > 0 {
+					outcome, faults.Stream = faults.Stream[0], faults.Stream[1:]
+				}
+			case clsSnap:
+				if len(faults.Snap) > 0 {
+					outcome, faults.Snap = faults.Snap[0], faults.Snap[1:]
+				}
+				lastSnapFault = isFault(outcome)
+			}
+			if isFault(outcome) {
+				// the request fails; a correct standby abandons the attempt, backs off and starts over.  Nothing is
+				// asserted until it reports connected.
+				hist = append(hist, "fault:"+class+":"+foName(outcome))
+				cls["fault:"+class+":"+foName(outcome)] = true
+				if class == clsSnap {
+					snapFaults++
+					if okInAttempt == "/ha/sessions/stream" {
+						cls["fault:snapshot-after-stream-attached"] = true
+					}
+				} else {
+					strFaults++
+				}
+				okInAttempt = ""
+				ev.outcome, ev.pos = outcome, faults.Pos
+				close(ev.release)
+				continue
+			}
+			if class == clsStream && okInAttempt == "/ha/sessions" {
+				// get-then-stream order: the full sync has completed and the standby is parked before the stream:
+				// clause 1, on the real loop
+				cls["order:get-then-stream"] = true
+				if d := diffTable(sbStore.GetAllSessions(), snapAt); !d.empty() {
+					sig := sigLoopFullDiff
+					if len(d.extra) > 0 && len(d.missing)+len(d.differ)+len(d.dup) == 0 {
+						sig = sigLoopFullStale
+					}
+					fail(sig, "episode %d: immediately after the completed full sync the standby table differs from the snapshot: %v", ei, d)
+					break
+				}
+			} else if class == clsSnap && okInAttempt == "/ha/sessions/stream" {
+				cls["order:stream-then-get"] = true
+			}
+			if class == clsSnap {
+				snapAt = act.tbl.clone()
+			}
+			if okInAttempt == "" || okInAttempt == ev.path {
+				okInAttempt = ev.path
+			}
+			if outcome == foDelay {
+				cls["fault:"+class+":"+foName(outcome)] = true
+				hist = append(hist, "delay:"+ev.path)
+			}
+			hist = append(hist, "serve:"+ev.path)
+			if class == clsStream {
+				streamLive = true
+			}
+			ev.outcome = outcome
+			close(ev.release)
 		}
-		betweenLossy := do("between", ep.Between)
-		if len(ep.Between) > 0 {
-			cls["change-between-requests"] = true
+		if dead {
+			break
 		}
-		if betweenLossy {
+		// the standby reports the link up
+		if awayLossy || betweenLossy {
 			nt = true
 		}
-		hist = append(hist, "serve:"+r2.path)
-		close(r2.release)
-		// link up: stream attached after a full sync that completed after mark
-		if !pollUntil(func() bool {
-			st := sb.Stats()
-			return st.Connected && st.LastSyncTime.After(mark) && act.syn.VerifSSEClientCount() >= 1
-		}) {
-			inconclusive("link did not come up within %v", waitTimeout)
-			break
+		if snapFaults+strFaults > 0 {
+			cls["link-up-after-faults"] = true
+			if (awayLossy || len(ep.Away) > 0) && snapFaults > 0 {
+				cls["nt:snapshot-fault-while-tables-differ"] = true
+				nt = true
+			}
+		}
+		if rem := len(faults.Stream) + len(faults.Snap); rem > 0 {
+			cls["connected-with-faults-unserved"] = true // the standby needed fewer requests than faults were planned
 		}
 		do("connected", ep.Connected)
 		// the active goes quiet; the sentinel is the last change pushed
@@ -392,12 +480,16 @@ func runLinkCase(t fataler, c linkCase) {
 			sig := sigQuiescent
 			extraOnly := len(d.extra) > 0 && len(d.missing)+len(d.differ)+len(d.dup) == 0
 			switch {
+			case lastSnapFault:
+				// the standby reported the link up although the snapshot request of this very attempt had failed
+				sig = sigAfterFailedSnapshot
 			case extraOnly && (len(ep.Between) == 0 || vstat.IsListed(sigStaleHTTP)):
 				sig = sigLoopFullStale // a session deleted while the standby could not learn of it survived the full sync
 			case len(ep.Between) > 0:
 				sig = sigGap
 			}
-			fail(sig, "episode %d: link up, active quiet, sentinel delivered, but standby != active: %v", ei, d)
+			fail(sig, "episode %d: link up (standby connected, last sync %s, last error %q), active quiet, sentinel delivered, but standby != active: %v", ei,
+				sb.Stats().LastSyncTime.Format("15:04:05.000"), sb.Stats().LastError, d)
 			break
 		}
 		if d := diffTable(act.store.GetAllSessions(), act.tbl); !d.empty() {
@@ -406,7 +498,14 @@ func runLinkCase(t fataler, c linkCase) {
 		cls["episode-converged"] = true
 		if ei+1 < len(c.Episodes) {
 			hist = append(hist, "cut")
+			streamLive = false
 			g.endStreams()
+			// the next episode starts when the standby has noticed (its connected flag is its own statement about
+			// the attempt under way only from then on)
+			if !pollUntil(func() bool { return !sb.Stats().Connected }) {
+				inconclusive("standby still reports connected %v after the active ended its stream", waitTimeout)
+				break
+			}
 		}
 	}
 	if isInconclusive() {
